@@ -19,7 +19,7 @@ Empty == [x \in {} |-> 0]
 With(f, k, v) == [x \in DOMAIN f \cup {k} |-> IF x = k THEN v ELSE f[x]]
 
 Init == /\ h \in DOMAIN H /\ l = 1 /\ pend = {} /\ results = Empty /\ st = Empty /\ emitted = {}
-        /\ mk \in (IF H[h].impl = "sio" THEN {"cancel", "replace"} ELSE {"none"})
+        /\ mk \in (IF H[h].impl = "sio" THEN {"replace", "keep"} ELSE {"none"})
 
 Call == /\ l <= Len(Evs) /\ Ev.ev = "call"
         /\ pend' = pend \cup {[op |-> Ev.op, kind |-> Ev.kind, id |-> Ev.id, d |-> Ev.d, t |-> Ev.t]}
@@ -27,15 +27,6 @@ Call == /\ l <= Len(Evs) /\ Ev.ev = "call"
 Lin == \E o \in pend : LET r == ApplyReq(o, st, H[h].impl, mk) IN
          /\ pend' = pend \ {o} /\ results' = With(results, o.op, r.res) /\ st' = r.st
          /\ UNCHANGED <<h, l, emitted, mk>>
-\* SioRequestIgnored (named deviation): requests to the single-loop crew's timers machine have no
-\* reply; the machine may not take a request at all (its start node's patterns are matched under
-\* the bindings left by an earlier failed request).  Such a request is not accepted and has no
-\* effect; the driver sees it as "rejected" (make) / "notfound" (cancel).
-Ignored == /\ H[h].impl = "sio"
-           /\ \E o \in pend :
-                /\ pend' = pend \ {o}
-                /\ results' = With(results, o.op, IF o.kind = "add" THEN "rejected" ELSE "notfound")
-                /\ UNCHANGED <<h, l, st, emitted, mk>>
 Ret == /\ l <= Len(Evs) /\ Ev.ev = "ret" /\ Ev.op \in DOMAIN results /\ results[Ev.op] = Ev.res
        /\ l' = l + 1 /\ UNCHANGED <<h, pend, results, st, emitted, mk>>
 \* the timer stops being pending (its id becomes free); only useful if its firing is observed later
@@ -59,7 +50,7 @@ Snap == /\ l <= Len(Evs) /\ Ev.ev = "snap" /\ pend = {}
         /\ \A k \in DOMAIN st : st[k].status = "fired" => k \in emitted
         /\ l' = l + 1 /\ UNCHANGED <<h, pend, results, st, emitted, mk>>
 
-Next == Call \/ Lin \/ Ignored \/ Ret \/ FireLin \/ Fire \/ Hook \/ Snap
+Next == Call \/ Lin \/ Ret \/ FireLin \/ Fire \/ Hook \/ Snap
 Spec == Init /\ [][Next]_vars
 
 ASSUME TLCSet(1, {}) /\ TLCSet(2, [i \in DOMAIN H |-> 0])
